@@ -160,3 +160,36 @@ Qed.
 Lemma okR_err {A E} (Qa : A -> Prop) (e : E) : okR Qa (Err e).
 Proof. exact I. Qed.
 #[export] Hint Resolve okR_err : core.
+
+(* ---- program equivalence (same calls, same continuations pointwise): program
+   equality without functional extensionality ------------------------------------------ *)
+Inductive peq {A} : prog A -> prog A -> Prop :=
+| pe_ret a : peq (Ret a) (Ret a)
+| pe_call c k k' : (forall r, peq (k r) (k' r)) -> peq (Call c k) (Call c k')
+| pe_panic s : peq (Panic s) (Panic s)
+| pe_fuel : peq OutOfFuel OutOfFuel.
+
+Lemma peq_refl {A} (p : prog A) : peq p p.
+Proof. induction p; constructor; auto. Qed.
+
+Lemma peq_sym {A} (p q : prog A) : peq p q -> peq q p.
+Proof. intro H. induction H; constructor; auto. Qed.
+
+Lemma peq_trans {A} (p q r : prog A) : peq p q -> peq q r -> peq p r.
+Proof.
+  intro H. revert r. induction H as [a | c k k' Hk IH | s | ]; intros r Hr; inversion Hr; subst; try constructor.
+  intro x. apply IH. match goal with H : forall r, peq (k' r) _ |- _ => apply H end.
+Qed.
+
+Lemma bind_assoc {A B C} (p : prog A) (f : A -> prog B) (g : B -> prog C) :
+  peq (bind (bind p f) g) (bind p (fun x => bind (f x) g)).
+Proof. induction p as [a | c k IH | s | ]; cbn; try constructor; [apply peq_refl|exact IH]. Qed.
+
+Lemma peq_bind {A B} (p q : prog A) (f g : A -> prog B) :
+  peq p q -> (forall a, peq (f a) (g a)) -> peq (bind p f) (bind q g).
+Proof. intros H Hf. induction H; cbn; try constructor; auto. Qed.
+
+Lemma all_calls_peq {A} P (p q : prog A) : peq p q -> all_calls P p -> all_calls P q.
+Proof.
+  intro H. induction H as [a | c k k' Hk IH | s | ]; intro Hp; inversion Hp; subst; constructor; auto.
+Qed.
